@@ -95,6 +95,8 @@ class Registry:
         self.inline: set[str] = set()
         self.assumptions: list[str] = []
         self.exc_parents: dict[str, str] = {}
+        self.lemma_obs: dict[str, dict] = {}
+        self.kind_hints: dict = {}
 
     # the functions below are what spec files use -------------------------------------
     def model(self, name, fields=None, builtin=False, bases=(), dynamic=None):
@@ -133,6 +135,12 @@ class Registry:
             self.lemmas[name] = f
             return f
         return deco
+
+    def lemma_ob(self, name, vars, assumes=(), shows=(), props=(), hints=(), note=""):
+        """A lemma over spec functions/contracts, proved once as its own obligation set."""
+        self.lemma_obs[name] = dict(name=name, vars=OrderedDict((k, parse_kind(v)) for k, v in vars.items()),
+                                    assumes=_clauses(assumes, "assume"), shows=_clauses(shows, "show"),
+                                    props=list(props), hints=list(hints), note=note)
 
     def inline_fn(self, *qualnames):
         self.inline.update(qualnames)
